@@ -132,6 +132,17 @@ def build_network(desc: dict):
         import tempfile
         import encoders
         fmts = list(desc["via_files"])
+        if desc.get("after_failed_krome"):
+            # earlier in the process a KROME file with its own column layout was read and ABORTED at a bad line (the caller caught the error)
+            tfb = tempfile.NamedTemporaryFile("w", suffix=".krome", delete=False, dir=os.environ.get("TMPDIR"))
+            tfb.write("@format:idx,R,R,P,P,P,P,P,rate\n1,H,H,H2,,,,,1.0d-10\n2,Hx,H,H2,,,,,1.0d-10\n")
+            tfb.close()
+            try:
+                Network(filelist=tfb.name, fileformats="krome")
+            except Exception:   # noqa
+                pass
+            finally:
+                os.unlink(tfb.name)
         n_ = len(desc["reactions"])
         cuts = [round(j * n_ / len(fmts)) for j in range(len(fmts) + 1)]
         flist = []
@@ -139,8 +150,10 @@ def build_network(desc: dict):
             tf = tempfile.NamedTemporaryFile("w", suffix=f".{fmt_}", delete=False, dir=os.environ.get("TMPDIR"))
             for i in range(cuts[j], cuts[j + 1]):
                 r, p = desc["reactions"][i]
-                tf.write(encoders.ENCODERS[fmt_]({"r": list(r), "p": list(p), "a": 1.0e-10 * (i + 1), "b": 0.0, "c": 0.0, "tmin": -1.0, "tmax": -1.0,
-                                                  "idx": i + 1, "code": {"naunet": 100, "kida": 3}[fmt_]}) + "\n")
+                rec_ = {"r": list(r), "p": list(p), "a": 1.0e-10 * (i + 1), "b": 0.0, "c": 0.0, "tmin": -1.0, "tmax": -1.0, "idx": i + 1,
+                        "code": {"naunet": 100, "kida": 3, "krome": None}[fmt_]}
+                # (KROME: the default column layout, i.e. a file WITHOUT a @format line)
+                tf.write((encoders.krome(rec_, fmt="idx,R,R,R,P,P,P,P,Tmin,Tmax,rate") if fmt_ == "krome" else encoders.ENCODERS[fmt_](rec_)) + "\n")
             tf.close()
             flist.append(tf.name)
         try:
@@ -620,6 +633,9 @@ def main(ctx: Ctx) -> int:
         {"reactions": [(["H2", "O"], ["OH", "H"]), (["CH3OH", "He+"], ["CH", "OH", "H", "H", "He+"]), (["H", "H", "H"], ["H2", "H"]),
                        (["CH3OH", "H+"], ["CH", "OH", "H", "H", "H+"]), (["OH", "H"], ["O", "H2"])],
          "required": ["He"], "via_files": ["kida", "naunet"], "origin": "random"},
+        # a KROME file in the default column layout, read after another KROME file with its own layout was aborted at a bad line
+        {"reactions": [(["H", "H", "H"], ["H2", "H"]), (["H2", "He+"], ["H", "H+", "He"]), (["H+", "e-"], ["H"]), (["He+", "e-"], ["He"])],
+         "required": [], "via_files": ["krome"], "after_failed_krome": True, "origin": "random"},
         # an element represented by a species that is not spelled like it (the less connected O* precedes O in the species order)
         {"reactions": [(["O*", "H2"], ["OH", "H"]), (["O", "H2"], ["OH", "H"]), (["OH", "H"], ["O", "H2"]), (["O", "H"], ["OH"]), (["CO", "He+"], ["C+", "O", "He"])],
          "required": [], "origin": "random"},
